@@ -15,7 +15,22 @@ data-format switches.  After every call the real output and `q.scale` are
   * judged by the clause oracle of c04.py (plus: constant alpha => `q.scale` == alpha),
   * compared with a FRESH TWIN (same class, canonical python-float arguments, built at that moment):
     the k-th use must be a first use, `q.scale` must be that of the last call, `get_weight_scale` must
-    report it, and an object built from the same text must not share state with it."""
+    report it, and an object built from the same text must not share state with it.
+
+Second strengthening round (seed C04-7): every mutable object handed to the real code (a LIST scale_axis /
+elements_per_scale, an ndarray alpha / threshold — through the constructor or through an attribute
+assignment) is a private COPY the harness keeps a handle on; the harness' own record of the CONFIGURED
+value is never seen by the real code.  After every call
+  * the configured groups (constructor / setter spelling of scale_axis, counted against the rank of the
+    CURRENT tensor) are what `scale_group_constant` / `least_squares` / `po2` / `scale_shape` are judged on,
+  * clause `attrs_unchanged_by_call`: every public attribute except `scale` / `built` is what it was
+    before the call (by value: lists entry by entry, arrays / tensors byte by byte),
+  * clause `argument_not_mutated`: every handed-over object still has the value it was handed over with —
+    also when ONE list / array is shared by two quantizers (pair scenarios, calls interleaved).
+New streams: `hist-axis` (list / int / negative / mixed scale axes x elements_per_scale on histories whose
+rank changes 2..5, all construction routes incl. attribute assignment on stochastic_binary) and `shared`
+(two objects built from one python list / one ndarray)."""
+import copy
 from fractions import Fraction as F
 
 import numpy as np
@@ -140,27 +155,81 @@ def axis_obj(sa, np_int=False):
   return sa
 
 
+# ------------------------------------------------------------------ snapshots of mutable state
+
+def snap(v):
+  """a value-level, hashable picture of an attribute / argument (lists entry by entry — TF's ListWrapper
+  is a list —, arrays and tensors byte by byte)"""
+  if v is None or isinstance(v, (bool, int, float, str)):
+    return (type(v).__name__, v)
+  if isinstance(v, (list, tuple)):
+    return ("list" if isinstance(v, list) else "tuple", tuple(snap(t) for t in v))
+  if isinstance(v, np.ndarray):
+    return ("ndarray", str(v.dtype), tuple(v.shape), v.tobytes())
+  if isinstance(v, np.generic):
+    return (type(v).__name__, v.item())
+  if hasattr(v, "numpy"):
+    a = np.asarray(v.numpy())
+    return ("tensor", str(a.dtype), tuple(a.shape), a.tobytes())
+  return ("object", repr(v))
+
+
+def show(sn):
+  """short text of a snapshot for the violation detail"""
+  if sn[0] in ("list", "tuple"):
+    return "[" + ", ".join(show(t) for t in sn[1]) + "]"
+  if sn[0] in ("ndarray", "tensor"):
+    return "%s%s:%s" % (sn[0], list(sn[2]), np.frombuffer(sn[3], dtype=sn[1]).ravel()[:6].tolist())
+  return repr(sn[1])
+
+
+NOT_CONFIG = ("scale", "built")     # the documented state a call writes
+
+
+def public_attrs(q):
+  return {k: snap(v) for k, v in vars(q).items() if not k.startswith("_") and k not in NOT_CONFIG}
+
+
+class Held:
+  """the mutable objects handed to the real code (each a private copy, or a deliberately shared object)"""
+
+  def __init__(self, shared=None):
+    self.items = []                 # (name, object, snapshot when handed over)
+    self.shared = shared or {}      # name -> the ONE object several quantizers are built from
+
+  def give(self, name, value):
+    """the object to hand over for the configured `value`"""
+    if not isinstance(value, (list, np.ndarray)):
+      return value
+    obj = self.shared[name] if name in self.shared else copy.deepcopy(value)
+    self.items.append((name + (":shared" if name in self.shared else ""), obj, snap(obj)))
+    return obj
+
+  def mutated(self):
+    return [(n, show(s0), show(snap(o))) for n, o, s0 in self.items if snap(o) != s0]
+
+
 # ------------------------------------------------------------------ building real objects
 
-def _kwargs(tf, cls, attrs, extra):
+def _kwargs(tf, cls, attrs, extra, held):
   kw = {}
   if BASE[cls] == "binary":
-    kw["alpha"] = arg_obj(tf, attrs["alpha"])
+    kw["alpha"] = held.give("alpha", arg_obj(tf, attrs["alpha"]))
     if cls == "binary":
       u = attrs["use01"]
       kw["use_01"] = {"bool": bool(u), "int": int(u), "np_bool": np.bool_(u)}[extra.get("use01_form", "bool")]
       if attrs["sa"] is not None:
-        kw["scale_axis"] = axis_obj(attrs["sa"], extra.get("np_axis", False))
+        kw["scale_axis"] = held.give("scale_axis", axis_obj(attrs["sa"], extra.get("np_axis", False)))
       if attrs["eps"] is not None:
-        kw["elements_per_scale"] = attrs["eps"]
+        kw["elements_per_scale"] = held.give("elements_per_scale", attrs["eps"])
       if attrs["mn"] is not None:
         kw["min_po2_exponent"] = exp_obj(attrs["mn"])
       if attrs["mx"] is not None:
         kw["max_po2_exponent"] = exp_obj(attrs["mx"])
   else:
-    kw["alpha"] = arg_obj(tf, attrs["alpha"])
+    kw["alpha"] = held.give("alpha", arg_obj(tf, attrs["alpha"]))
     if attrs["threshold"] is not None:
-      kw["threshold"] = arg_obj(tf, attrs["threshold"])
+      kw["threshold"] = held.give("threshold", arg_obj(tf, attrs["threshold"]))
     n = attrs["unrolls"]
     if n != 5 or extra.get("unrolls_form"):
       kw["number_of_unrolls"] = {"int": int, "npint64": np.int64}[extra.get("unrolls_form", "int")](n)
@@ -216,14 +285,29 @@ def string_text(cls, attrs, blanks, positional):
   return cls + "(" + ",".join(items) + ")"
 
 
-def build(Q, tf, cls, attrs, route, extra):
+def build(Q, tf, cls, attrs, route, extra, held=None):
+  held = held if held is not None else Held()
   C = getattr(Q, cls)
   if route in ("string", "string_blank", "string_pos"):
     return Q.get_quantizer(string_text(cls, attrs, route == "string_blank", route == "string_pos"))
   if route == "string_layer":
     from qkeras import QActivation     # pylint: disable=import-outside-toplevel
     return QActivation(string_text(cls, attrs, False, False)).quantizer
-  kw = _kwargs(tf, cls, attrs, extra)
+  kw = _kwargs(tf, cls, attrs, extra, held)
+  if route == "attr":
+    # construct with the defaults, then ASSIGN the options (the only way to give a stochastic_binary a
+    # scale_axis; for the other classes: the same object a constructor call would give)
+    first = {k: kw.pop(k) for k in ("alpha", "temperature") if k in kw}
+    q = C(**first)
+    for k, v in kw.items():
+      setattr(q, k, v)
+    if cls == "stochastic_binary":
+      for k, n in (("sa", "scale_axis"), ("eps", "elements_per_scale")):
+        if attrs[k] is not None:
+          setattr(q, n, held.give(n, attrs[k]))
+      q.use_01 = bool(attrs["use01"])
+      q.min_po2_exponent, q.max_po2_exponent = exp_obj(attrs["mn"]), exp_obj(attrs["mx"])
+    return q
   if route == "registry":
     from qkeras import quantizer_registry     # pylint: disable=import-outside-toplevel
     return quantizer_registry.lookup_quantizer(cls)(**kw)
@@ -257,6 +341,7 @@ ATTR_NAME = dict(use01="use_01", alpha="alpha", sa="scale_axis", eps="elements_p
 def build_twin(Q, cls, ca):
   """a fresh object of the same class with the canonical spelling of the attributes now in force"""
   C = getattr(Q, cls)
+  ca = copy.deepcopy(ca)        # the real code never sees the harness' record of the configuration
   if cls == "binary":
     return C(use_01=ca["use01"], alpha=ca["alpha"], scale_axis=ca["sa"], elements_per_scale=ca["eps"],
              min_po2_exponent=ca["mn"], max_po2_exponent=ca["mx"])
@@ -300,15 +385,15 @@ def err_kind(e):
   return "other:" + type(e).__name__
 
 
-def _apply(Q, K, tf, q, attrs, op, ch_last):
+def _apply(Q, K, tf, q, attrs, op, ch_last, held):
   """a non-call operation on the live object `q` (and on the harness' record of its attributes)"""
   k = op["k"]
   if k == "set_alpha":
     attrs["alpha"] = op["v"]
-    q.alpha = arg_obj(tf, op["v"])
+    q.alpha = held.give("alpha", arg_obj(tf, op["v"]))
   elif k == "set_threshold":
     attrs["threshold"] = op["v"]
-    q.threshold = arg_obj(tf, op["v"])
+    q.threshold = held.give("threshold", arg_obj(tf, op["v"]))
   elif k == "set_unrolls":
     attrs["unrolls"] = op["v"]
     q.number_of_unrolls = op["v"]
@@ -317,7 +402,7 @@ def _apply(Q, K, tf, q, attrs, op, ch_last):
     q.use_01 = op["v"]
   elif k == "set_axis":
     attrs["sa"], attrs["eps"] = op["sa"], op["eps"]
-    q.scale_axis, q.elements_per_scale = op["sa"], op["eps"]
+    q.scale_axis, q.elements_per_scale = held.give("scale_axis", op["sa"]), held.give("elements_per_scale", op["eps"])
   elif k == "set_bounds":
     attrs["mn"], attrs["mx"] = op["mn"], op["mx"]
     q.min_po2_exponent, q.max_po2_exponent = exp_obj(op["mn"]), exp_obj(op["mx"])
@@ -338,67 +423,81 @@ def _apply(Q, K, tf, q, attrs, op, ch_last):
   return ch_last
 
 
-def execute(Q, K, tf, sc):
-  """run the scenario on the real code; returns one record per call and the final `q.scale` state"""
-  cls = sc["cls"]
-  attrs = dict(sc["attrs"])
-  ch_last = sc["ch_last"]
-  recs = []
-  K.set_image_data_format("channels_last" if ch_last else "channels_first")
-  had_phase = sc.get("phase") is not None
-  try:
-    if had_phase:
-      K.set_learning_phase(sc["phase"])
-    q = build(Q, tf, cls, attrs, sc["route"], sc.get("extra", {}))
-    alias = None
+class Live:
+  """one scenario on the real code, operation by operation (so that two of them can be interleaved)"""
+
+  def __init__(self, Q, K, tf, sc, held=None):
+    self.Q, self.K, self.tf, self.sc = Q, K, tf, sc
+    self.cls = sc["cls"]
+    self.attrs = dict(sc["attrs"])
+    self.ch_last = sc["ch_last"]
+    self.recs = []
+    self.held = held if held is not None else Held()
+    self.q = build(Q, tf, self.cls, self.attrs, sc["route"], sc.get("extra", {}), self.held)
+    self.alias = None
     if sc["route"].startswith("string"):
       # a second object from the IDENTICAL text: must not share state with the first
-      alias = build(Q, tf, cls, attrs, sc["route"], sc.get("extra", {}))
-    last_scale = ("never", None)
-    op_err = None
-    for op in sc["ops"]:
-      k = op["k"]
-      if k != "call":
-        # attribute changes / _set_trainable_parameter / format switches must not raise
-        try:
-          ch_last = _apply(Q, K, tf, q, attrs, op, ch_last)
-        except Exception as e:  # pylint: disable=broad-except
-          op_err = dict(op=k, error=(type(e).__name__ + ": " + str(e))[:300], kind=err_kind(e),
-                        alpha_form=arg_label(attrs["alpha"]))
-          break
-        continue
-      if k == "call":
-        x = op["x"]
-        ca = canon_attrs(cls, attrs)
-        rec = dict(x=x, ca=ca, ch_last=ch_last, aform=arg_label(attrs["alpha"]),
-                   tform=arg_label(attrs.get("threshold")) if BASE[cls] == "ternary" else None,
-                   attrs=dict(attrs), xin=op.get("xin", "tensor"))
-        rec["xste"] = np.asarray(K.tanh(tf.constant(x)), dtype=np.float32) if attrs["alpha"] is None else x
-        try:
-          y = np.asarray(q(_as_input(tf, x, rec["xin"])), dtype=np.float32)
-          rec["y"] = y
-          rec["yshape"] = list(y.shape)
-          rec["sc"], rec["sc_problem"] = _scale_of(q, x.shape)
-          try:
-            g = Q.get_weight_scale(q)
-            rec["gws"] = np.broadcast_to(np.asarray(g, dtype=np.float64), x.shape).ravel()
-          except Exception as e:  # pylint: disable=broad-except
-            rec["gws"] = "raises:" + type(e).__name__
-          last_scale = ("ok", rec["sc"])
-          if alias is not None and rec["sc"] is not None:
-            alias(tf.constant(np.array([3.0, -5.0, 0.25], dtype=np.float32)))
-            again, _ = _scale_of(q, x.shape)
-            rec["sc_after_alias"] = again
-        except Exception as e:  # pylint: disable=broad-except
-          rec["err"] = err_kind(e)
-          rec["err_text"] = (type(e).__name__ + ": " + str(e))[:300]
-        try:
-          t = build_twin(Q, cls, ca)
-          rec["twin_y"] = np.asarray(t(tf.constant(x)), dtype=np.float32)
-          rec["twin_sc"], _ = _scale_of(t, x.shape)
-        except Exception as e:  # pylint: disable=broad-except
-          rec["twin_err"] = err_kind(e)
-        recs.append(rec)
+      self.alias = build(Q, tf, self.cls, self.attrs, sc["route"], sc.get("extra", {}))
+    self.last_scale = ("never", None)
+    self.op_err = None
+
+  def step(self, op):
+    """False when the history ends here (an operation other than a call raised)"""
+    Q, K, tf, q, cls, attrs = self.Q, self.K, self.tf, self.q, self.cls, self.attrs
+    k = op["k"]
+    if k != "call":
+      # attribute changes / _set_trainable_parameter / format switches must not raise
+      try:
+        self.ch_last = _apply(Q, K, tf, q, attrs, op, self.ch_last, self.held)
+      except Exception as e:  # pylint: disable=broad-except
+        self.op_err = dict(op=k, error=(type(e).__name__ + ": " + str(e))[:300], kind=err_kind(e),
+                           alpha_form=arg_label(attrs["alpha"]))
+        return False
+      return True
+    x = op["x"]
+    ca = canon_attrs(cls, attrs)
+    rec = dict(x=x, ca=ca, ch_last=self.ch_last, aform=arg_label(attrs["alpha"]),
+               tform=arg_label(attrs.get("threshold")) if BASE[cls] == "ternary" else None,
+               attrs=dict(attrs), xin=op.get("xin", "tensor"))
+    rec["xste"] = np.asarray(K.tanh(tf.constant(x)), dtype=np.float32) if attrs["alpha"] is None else x
+    before = public_attrs(q)
+    try:
+      y = np.asarray(q(_as_input(tf, x, rec["xin"])), dtype=np.float32)
+      rec["y"] = y
+      rec["yshape"] = list(y.shape)
+      rec["sc"], rec["sc_problem"] = _scale_of(q, x.shape)
+      rec["sc_shape"] = list(np.shape(q.scale)) if q.scale is not None else None
+      try:
+        g = Q.get_weight_scale(q)
+        rec["gws"] = np.broadcast_to(np.asarray(g, dtype=np.float64), x.shape).ravel()
+      except Exception as e:  # pylint: disable=broad-except
+        rec["gws"] = "raises:" + type(e).__name__
+      self.last_scale = ("ok", rec["sc"])
+      if self.alias is not None and rec["sc"] is not None:
+        self.alias(tf.constant(np.array([3.0, -5.0, 0.25], dtype=np.float32)))
+        again, _ = _scale_of(q, x.shape)
+        rec["sc_after_alias"] = again
+    except Exception as e:  # pylint: disable=broad-except
+      rec["err"] = err_kind(e)
+      rec["err_text"] = (type(e).__name__ + ": " + str(e))[:300]
+    # ---- what the call did to the object and to the objects it was configured with
+    after = public_attrs(q)
+    rec["attr_changed"] = [(n, show(before[n]) if n in before else "<absent>", show(after[n]) if n in after else "<absent>")
+                           for n in sorted(set(before) | set(after)) if before.get(n) != after.get(n)]
+    rec["arg_mutated"] = self.held.mutated()
+    # (a mutated argument is reported once: the later calls are judged against the CONFIGURED value)
+    self.held.items = [(n, o, snap(o)) for n, o, _ in self.held.items]
+    try:
+      t = build_twin(Q, cls, ca)
+      rec["twin_y"] = np.asarray(t(tf.constant(x)), dtype=np.float32)
+      rec["twin_sc"], _ = _scale_of(t, x.shape)
+    except Exception as e:  # pylint: disable=broad-except
+      rec["twin_err"] = err_kind(e)
+    self.recs.append(rec)
+    return True
+
+  def result(self):
+    recs, q = self.recs, self.q
     final = None
     if recs:
       shape = recs[-1]["x"].shape
@@ -406,11 +505,47 @@ def execute(Q, K, tf, sc):
       if ok:
         shape = ok[-1]["x"].shape
       final = _scale_of(q, shape) if q.scale is not None else (None, "none")
-    return recs, final, last_scale, op_err
+    return recs, final, self.last_scale, self.op_err
+
+
+def execute(Q, K, tf, sc):
+  """run the scenario on the real code; returns one record per call and the final `q.scale` state"""
+  K.set_image_data_format("channels_last" if sc["ch_last"] else "channels_first")
+  had_phase = sc.get("phase") is not None
+  try:
+    if had_phase:
+      K.set_learning_phase(sc["phase"])
+    live = Live(Q, K, tf, sc)
+    for op in sc["ops"]:
+      if not live.step(op):
+        break
+    return live.result()
   finally:
     K.set_image_data_format("channels_last")
     if had_phase:
       K.set_learning_phase(0)
+
+
+def execute_pair(Q, K, tf, pair):
+  """two objects configured with the SAME python objects (`pair["shared"]`: one list / one ndarray), their
+  operations interleaved in `pair["order"]`; no format switches, no learning-phase changes inside a pair"""
+  a, b = pair["scs"]
+  K.set_image_data_format("channels_last" if a["ch_last"] else "channels_first")
+  try:
+    # ONE `Held` for both: a mutation is reported on the call that made it, whoever owns the object
+    held = Held({n: copy.deepcopy(v) for n, v in pair["shared"].items()})
+    lives = [Live(Q, K, tf, a, held), Live(Q, K, tf, b, held)]
+    its = [iter(a["ops"]), iter(b["ops"])]
+    alive = [True, True]
+    for w in pair["order"]:
+      if not alive[w]:
+        continue
+      op = next(its[w], None)
+      if op is not None:
+        alive[w] = lives[w].step(op)
+    return [lives[0].result(), lives[1].result()]
+  finally:
+    K.set_image_data_format("channels_last")
 
 
 # ------------------------------------------------------------------ the driver line of a scenario
@@ -447,6 +582,19 @@ def line_of(sc, recs, eps32):
       ops.append(dict(k=k, ch_last=op["ch_last"]))
   return dict(op="bin_hist" if BASE[cls] == "binary" else "ter_hist", obj=obj, ch_last=sc["ch_last"], ops=ops,
               eps32=core.rj(eps32))
+
+
+def pair_line(pair, results, eps32):
+  """ONE driver line for a pair of binary-class objects: the history addressed to both (`binRun2`)"""
+  a, b = pair["scs"]
+  la, lb = line_of(a, results[0][0], eps32), line_of(b, results[1][0], eps32)
+  its = [iter(la["ops"]), iter(lb["ops"])]
+  ops = []
+  for w in pair["order"]:
+    op = next(its[w], None)
+    if op is not None:
+      ops.append(dict(op, w=w))
+  return dict(op="bin_pair", obj1=la["obj"], obj2=lb["obj"], ch_last=a["ch_last"], ops=ops, eps32=core.rj(eps32))
 
 
 # ------------------------------------------------------------------ generators
@@ -657,7 +805,120 @@ def gen(rng, tier):
     for cls in CLASSES:
       for _h in range(n_hist):
         scs.append(history(rng, cls))
+    # ---- G. histories with an explicit scale_axis (list / int, negative / mixed) whose rank changes;
+    # H. two objects configured with one python list / one ndarray
+    n_axis = 16 if tier == "quick" else 40
+    for cls in ("binary", "stochastic_binary"):
+      for k in range(n_axis):
+        scs.append(axis_history(rng, cls, k))
+    scs.extend(shared_pairs(rng))
   return scs
+
+
+# scale_axis / elements_per_scale spellings that are valid for EVERY rank >= 2 (entries within [-2, 1]); with
+# elements_per_scale only spellings whose normalised axes are distinct AND ascending for every rank >= 2 (the
+# unrolling of `_get_unrolled_shape` shifts the later axes by one per unrolled axis, i.e. it presumes ascending
+# axes: `scale_axis=[1, 0], elements_per_scale=[2, 2]` raises on the unchanged code — see notes, not generated)
+AXES_PLAIN = [[-1], [0, -1], [-2], [-1, -2], [-2, 0], [1, -1], -1, -2, [0], [1], [0, 1], [-1, 0]]
+AXES_EPS = [([-1], [2]), ([-1], 2), (-1, 2), ([0, -1], [1, 2]), ([-2, -1], 2), ([-2, -1], [2, 1]), ([0], [2]), (-2, 2)]
+
+
+def axis_shapes(rng, n_calls, with_eps, max_elems=64):
+  """shapes whose RANK changes from call to call (ranks 2..5, both directions; from the 4th call on ranks
+  repeat)"""
+  ranks = [int(r) for r in rng.permutation([2, 3, 4, 5])]
+  if rng.random() < 0.5:
+    ranks.remove(2)
+    ranks.insert(0, 2)        # the first use is most often a dense kernel
+  ranks = ranks[:min(n_calls, 3)]
+  while len(ranks) < n_calls:
+    ranks.append([r for r in (2, 3, 4, 5) if r != ranks[-1]][int(rng.integers(0, 3))])
+  out = []
+  dims = (2, 4) if with_eps else (1, 2, 4)
+  for r in ranks:
+    while True:
+      sh = [int(rng.choice(dims)) for _ in range(r)]
+      if int(np.prod(sh)) <= max_elems:
+        break
+    out.append(sh)
+  return out
+
+
+def axis_history(rng, cls, k):
+  """a binary / stochastic_binary object with a data-dependent scale and an explicit (list / int, negative /
+  mixed) scale_axis, used on tensors of DIFFERENT rank: the groups of every call are those of the configured
+  spelling counted against the rank of that call"""
+  with_eps = (k % 3 == 2)
+  if with_eps:
+    sa, eps = AXES_EPS[int(rng.integers(0, len(AXES_EPS)))]
+  else:
+    sa, eps = AXES_PLAIN[k % len(AXES_PLAIN)] if k < len(AXES_PLAIN) else AXES_PLAIN[int(rng.integers(0, len(AXES_PLAIN)))], None
+  alpha = ["auto", "auto_po2"][int(rng.integers(0, 2))]
+  n_calls = int(rng.integers(2, 4))
+  shapes = axis_shapes(rng, n_calls, with_eps)
+  use01 = bool(cls == "binary" and rng.random() < 0.25)
+  mn = mx = None
+  if alpha == "auto_po2" and rng.random() < 0.3:
+    mn, mx = dict(f="py", e=-6), dict(f="py", e=3)
+  late = (not with_eps) and rng.random() < 0.3      # configured by an attribute assignment AFTER a first call
+  attrs = bin_attrs(alpha, use01, None if late else sa, None if late else eps, mn, mx)
+  if cls == "stochastic_binary":
+    route = "attr"
+  else:
+    route = ["ctor_kw", "ctor_kw", "attr", "dict", "from_config", "registry", "string", "ctor_pos"][int(rng.integers(0, 8))]
+    if route == "string" and (mn is not None):
+      route = "ctor_kw"
+  ops = []
+  for j, sh in enumerate(shapes):
+    if late and j == 1:
+      ops.append(dict(k="set_axis", sa=sa, eps=eps))
+    elif j and rng.random() < 0.15:
+      ops.append(dict(k="set_use01", v=bool(rng.random() < 0.5)) if cls == "binary" else dict(k="set_trainable", via="direct"))
+    kind = ["plain", "plain", "zero_channel", "sparse"][int(rng.integers(0, 4))]
+    ops.append(call(rng, A.exact_tensor(rng, sh, kind)))
+  return scenario("hist-axis", cls, attrs, ops, rng, route=route, ch_last=bool(rng.random() < 0.7))
+
+
+def shared_pairs(rng):
+  """two quantizers configured with ONE python object (a list scale_axis / elements_per_scale, an ndarray
+  alpha / threshold); their calls are interleaved, on tensors of different rank"""
+  pairs = []
+  # ---- one scale_axis list (and one elements_per_scale list) for two binary / stochastic_binary objects
+  for k, (ca, cb) in enumerate((("binary", "binary"), ("binary", "stochastic_binary"), ("stochastic_binary", "binary"),
+                                ("binary", "binary"), ("binary", "binary"))):
+    with_eps = k >= 3
+    sa, eps = (AXES_EPS[[0, 3, 4][int(rng.integers(0, 3))]] if with_eps
+               else ([[-1], [0, -1], [-2], [-1, -2]][int(rng.integers(0, 4))], None))
+    if not isinstance(sa, list):
+      sa = [sa]
+    shapes = axis_shapes(rng, 4, with_eps)
+    scs = []
+    for w, cls in enumerate((ca, cb)):
+      alpha = ["auto_po2", "auto"][w] if k % 2 == 0 else ["auto", "auto_po2"][w]
+      ops = [call(rng, A.exact_tensor(rng, shapes[2 * j + w], "plain"), "tensor") for j in range(2)]
+      scs.append(scenario("shared", cls, bin_attrs(alpha, False, sa, eps), ops, rng,
+                          route="attr" if cls == "stochastic_binary" else ["ctor_kw", "dict", "attr"][int(rng.integers(0, 3))],
+                          ch_last=True))
+      scs[-1]["phase"] = None
+    shared = dict(scale_axis=sa)
+    if isinstance(eps, list):
+      shared["elements_per_scale"] = eps
+    pairs.append(dict(scs=scs, shared=shared, order=[0, 1, 0, 1]))
+  # ---- one ndarray alpha (and one ndarray threshold) for two objects of any class
+  for ca, cb in (("binary", "ternary"), ("ternary", "stochastic_ternary"), ("stochastic_binary", "binary"),
+                 ("stochastic_ternary", "ternary")):
+    c = int(rng.choice([2, 4]))
+    a = arr(rng.choice([0.5, 1.0, 2.0, 4.0, 3.0], size=c), ["float32", "float64"][int(rng.integers(0, 2))])
+    scs = []
+    for cls in (ca, cb):
+      at = bin_attrs(a) if BASE[cls] == "binary" else ter_attrs(a, None, 5)
+      shs = [[int(rng.choice([1, 2, 4])) for _ in range(int(r))] + [c] for r in rng.permutation([0, 1, 2, 3])[:2]]
+      ops = [call(rng, A.exact_tensor(rng, sh, "plain")) for sh in shs]
+      scs.append(scenario("shared", cls, at, ops, rng, route=["ctor_kw", "from_config"][int(rng.integers(0, 2))],
+                          ch_last=True))
+      scs[-1]["phase"] = None
+    pairs.append(dict(scs=scs, shared=dict(alpha=arg_obj(None, a)), order=[0, 1, 1, 0]))
+  return pairs
 
 
 def rand_alpha(rng, allow_auto=True, shape_hint=None):
@@ -803,11 +1064,29 @@ def why_raises(sc, rec):
 
 def run_obj(run, tier, Q, K, tf, rng, eps32, judge):
   scs = gen(rng, tier)
-  execd = []
+  execd, lines, where = [], [], []
   for sc in scs:
+    if "scs" in sc:
+      res = execute_pair(Q, K, tf, sc)
+      both_bin = all(BASE[s2["cls"]] == "binary" for s2 in sc["scs"])
+      if both_bin and all(r[3] is None for r in res):
+        # the pair model (`binRun2`): one line, the two objects' outputs come back as "a" / "b"
+        lines.append(pair_line(sc, res, eps32))
+        where += [(len(lines) - 1, "a"), (len(lines) - 1, "b")]
+      for s2, r in zip(sc["scs"], res):
+        execd.append((s2,) + tuple(r))
+        if not (both_bin and all(t[3] is None for t in res)):
+          # mixed classes: each object against its solo model (justified by C04_*_shared_argument_independent)
+          lines.append(line_of(s2, r[0], eps32))
+          where.append((len(lines) - 1, None))
+      continue
     recs, final, last, op_err = execute(Q, K, tf, sc)
     execd.append((sc, recs, final, last, op_err))
-  outs = core.run_driver("C04", [line_of(sc, recs, eps32) for sc, recs, _, _, _ in execd])
+    lines.append(line_of(sc, recs, eps32))
+    where.append((len(lines) - 1, None))
+  raw = core.run_driver("C04", lines)
+  outs = [raw[i] if k is None else raw[i].get(k, raw[i]) for i, k in where]
+  run.count("obj:pair-model-lines", sum(1 for _, k in where if k == "a"))
   n_calls = 0
   for (sc, recs, final, last, op_err), o in zip(execd, outs):
     cls = sc["cls"]
@@ -837,6 +1116,20 @@ def run_obj(run, tier, Q, K, tf, rng, eps32, judge):
       if k > 0:
         run.count("obj:call-after-call:%s" % ("same-rank" if len(c["shape"]) == len(recs[k - 1]["x"].shape) else "rank-change"))
       run.compared += 1
+      # ---- a call writes `scale` (and `built`) and nothing else: every other public attribute, and every
+      # object the quantizer was configured with (also one shared with another quantizer), keeps its value
+      run.count("obj:clause:attrs_unchanged_by_call:" + ("FAIL" if rec["attr_changed"] else "ok"))
+      if rec["attr_changed"]:
+        n0 = rec["attr_changed"][0][0]
+        run.violate("attrs_unchanged_by_call", dict(key0, attr=n0),
+                    {"case": lab, "call": k, "changed": [dict(attr=n, before=b, after=a) for n, b, a in rec["attr_changed"]]},
+                    mirrored=False)
+      if rec["arg_mutated"]:
+        run.count("obj:clause:argument_not_mutated:FAIL")
+        n0 = rec["arg_mutated"][0][0]
+        run.violate("argument_not_mutated", dict(key0, arg=n0),
+                    {"case": lab, "call": k, "mutated": [dict(arg=n, handed_over=b, now=a) for n, b, a in rec["arg_mutated"]]},
+                    mirrored=False)
       # ---- the real call raised
       if "err" in rec:
         mirrored = "err" in mo
@@ -852,7 +1145,9 @@ def run_obj(run, tier, Q, K, tf, rng, eps32, judge):
       if "err" in mo:
         run.disagree("obj:model-rejects", lab, "ok", mo)
         continue
-      det = {"case": lab, "call": k, "n_calls": len(recs)}
+      det = {"case": lab, "call": k, "n_calls": len(recs), "earlier_calls_on_shapes": [list(r["x"].shape) for r in recs[:k]]}
+      if rec["x"].size <= 64:
+        det["x"] = [float(v) for v in rec["x"].ravel()]
       if not np.isfinite(rec["y"]).all():
         run.count("obj:impl-nonfinite")
         run.violate("finite", key0, dict(det, y=[float(v) for v in rec["y"].ravel()[:8]]), mirrored=False)
@@ -872,6 +1167,18 @@ def run_obj(run, tier, Q, K, tf, rng, eps32, judge):
         run.violate("finite", key0, dict(det, scale=[float(v) for v in rec["sc"][:8]]), mirrored=False)
         continue
       sc_f = [F(float(v)) for v in rec["sc"]]
+      # ---- the SHAPE of a data-dependent `q.scale`: one entry per index of the configured scale axes of THIS
+      # tensor, 1 along every reduced axis (keepdims); rank <= 1: one scale per element
+      if isinstance(c["alpha"], str):
+        r = len(c["shape"])
+        if r <= 1:
+          want = list(c["shape"])
+        else:
+          kept = {a % r for a in A.spec_scale_axes(r, c.get("sa") if c["q"] == "binary" else None, rec["ch_last"])}
+          want = [c["shape"][d] if d in kept else 1 for d in range(r)]
+        run.count("obj:clause:scale_shape:" + ("ok" if rec["sc_shape"] == want else "FAIL"))
+        if rec["sc_shape"] != want:
+          run.violate("scale_shape", key0, dict(det, scale_shape=rec["sc_shape"], expected=want), mirrored=False)
       # ---- tie: the Lean object model, bit for bit (exact-regime inputs only in these streams)
       mF = dict(out=A.dec(mo["F"]["out"]), scales=A.dec(mo["F"]["scales"]))
       mE = dict(out=A.dec(mo["E"]["out"]), scales=A.dec(mo["E"]["scales"]), codes=A.dec(mo["E"]["codes"]))
